@@ -24,6 +24,10 @@ const ARG_POOL: &[&str] = &[
     // values only arithmetic can make: infinities and NaN out of finite operands
     "1e308", "(* 1e308 10)", "(- 0 (* 1e308 10))", "(- (* 1e308 10) (* 1e308 10))", "(* 0 (* 1e308 10))",
     "[1, (* 0 (* 1e308 10)), 2]", "9223372036854775807", "-1.0", "5e-324",
+    // long arrays crowded around the edges of the integer range (orderings, sorts, sums)
+    "[18446744073709551615, 18446744073709551616, 18446744073709551614, 18446744073709551616, 18446744073709551613, 18446744073709551615, 18446744073709551616, 18446744073709551612, 18446744073709551614, 18446744073709551616, 18446744073709551611, 18446744073709551615, 18446744073709551610, 18446744073709551616, 18446744073709551613, 18446744073709551609, 18446744073709551616, 18446744073709551615, 18446744073709551608, 18446744073709551614, 18446744073709551616, 18446744073709551607, 18446744073709551612, 18446744073709551616, 18446744073709551615, 18446744073709551606]",
+    "[-9223372036854775808, -9223372036854775809, -9223372036854775807, -9223372036854775809, -9223372036854775806, -9223372036854775808, -9223372036854775809, -9223372036854775805, -9223372036854775807, -9223372036854775809, -9223372036854775804, -9223372036854775808, -9223372036854775803, -9223372036854775809, -9223372036854775806, -9223372036854775802, -9223372036854775809, -9223372036854775808, -9223372036854775801, -9223372036854775807, -9223372036854775809, -9223372036854775800, -9223372036854775805, -9223372036854775809]",
+    "[3, 1, 2, 1e308, -1e308, 0.5, 9007199254740993, 9007199254740992, 9007199254740994, null, \"a\", true, [], {}, 2, 3, 1, 0, -1, 1.5, 2.5, 7, 8, 9, 10, 11, 12, 13, 14, 15, 16, 17, 18]",
 ];
 
 const SMALL_ARGS: &[&str] = &["0", "1", "2", "3", "10", "100", "-1", "1.5", "null", "\"a\"", "[1, 2]", ".arr"];
